@@ -1128,8 +1128,12 @@ impl Connection {
                 // The current `path` might have changed inside `handle_decode`,
                 // since the packet could have triggered a migration. Make sure
                 // the data received is accounted for the most recent path by accessing
-                // `path` after `handle_decode`.
-                self.path.total_recvd = self.path.total_recvd.saturating_add(data_len as u64);
+                // `path` after `handle_decode`. A datagram from any other address (one that did
+                // not make us migrate, or that arrived from elsewhere during the handshake) says
+                // nothing about the current path's peer and must not raise its send budget.
+                if remote == self.path.remote {
+                    self.path.total_recvd = self.path.total_recvd.saturating_add(data_len as u64);
+                }
 
                 if let Some(data) = remaining {
                     self.stats.udp_rx.bytes += data.len() as u64;
@@ -2286,7 +2290,9 @@ impl Connection {
         ecn: Option<EcnCodepoint>,
         data: BytesMut,
     ) {
-        self.path.total_recvd = self.path.total_recvd.saturating_add(data.len() as u64);
+        if remote == self.path.remote {
+            self.path.total_recvd = self.path.total_recvd.saturating_add(data.len() as u64);
+        }
         let mut remaining = Some(data);
         while let Some(data) = remaining {
             match PartialDecode::new(
